@@ -1,6 +1,7 @@
 package main
 
 import (
+	"go/token"
 	"go/types"
 	"sort"
 	"strings"
@@ -217,6 +218,90 @@ func runC14(w *World, r *Report) {
 			} else {
 				r.Discharge("R-C14-1", key, w.pos(fn.Pos()), sprintInt(len(seeds))+" request-derived values; none reaches statement text unsanitised")
 			}
+		}
+	}
+
+	// ---- R-C14-4: shape of the identifier sanitizer: quote + escaped text + quote, nothing cut out of the escaped text
+	r.Rule("R-C14-4", "egostrings.SQLIdentifier returns a constant quote, the result of strings.ReplaceAll(name, quote, doubled quote), and a constant quote, joined by concatenation: the escaped text is never sliced (a cut can split a doubled quote) and the raw parameter reaches the result only through the ReplaceAll; a rewrite in another style is reported as not decided", 0)
+
+	if ep := w.pkg("internal/util/strings"); ep == nil {
+		r.Anchor("R-C14-4", "package internal/util/strings")
+	} else if sf := w.ssaFunc(ep, "SQLIdentifier"); sf == nil {
+		r.Anchor("R-C14-4", "egostrings.SQLIdentifier")
+	} else {
+		key := "strings.SQLIdentifier|quote + ReplaceAll + quote"
+		problem := ""
+		unknown := ""
+		sawEscape := false
+
+		var leaf func(v ssa.Value, depth int)
+
+		leaf = func(v ssa.Value, depth int) {
+			if depth > 12 || problem != "" {
+				return
+			}
+
+			switch x := v.(type) {
+			case *ssa.Const:
+			case *ssa.BinOp:
+				if x.Op != token.ADD {
+					problem = "the result is computed with " + x.Op.String()
+
+					return
+				}
+
+				leaf(x.X, depth+1)
+				leaf(x.Y, depth+1)
+			case *ssa.Phi:
+				for _, e := range x.Edges {
+					leaf(e, depth+1)
+				}
+			case *ssa.Call:
+				if callID(x.Common()) != "strings.ReplaceAll" {
+					unknown = "the result contains the value of " + callID(x.Common())
+
+					return
+				}
+
+				from, ok1 := constString(x.Call.Args[1])
+				to, ok2 := constString(x.Call.Args[2])
+
+				if !ok1 || !ok2 || from != `"` || to != `""` {
+					problem = "ReplaceAll does not double the double quote"
+
+					return
+				}
+
+				if _, isParam := x.Call.Args[0].(*ssa.Parameter); !isParam {
+					problem = "ReplaceAll is not applied to the whole parameter"
+
+					return
+				}
+
+				sawEscape = true
+			case *ssa.Slice:
+				problem = "the escaped text is sliced at " + w.pos(x.Pos()) + ": a cut between the two halves of a doubled quote leaves the identifier unterminated, and the text after it becomes SQL"
+			case *ssa.Parameter:
+				problem = "the raw parameter reaches the result without being escaped"
+			default:
+				unknown = "the result contains a value the rule does not model (" + sprintType(v) + ")"
+			}
+		}
+
+		for _, ret := range returnsOf(sf) {
+			leaf(resolveLocal(retResult(ret, 0)), 0)
+		}
+
+		switch {
+		case problem != "":
+			r.Violate("R-C14-4", key, w.pos(sf.Pos()), problem)
+		case unknown != "":
+			// a rewrite in another style (a Builder, a loop): not one of the known-bad shapes, and not judged
+			r.Info("R-C14-4", key, w.pos(sf.Pos()), "not decided: "+unknown)
+		case !sawEscape:
+			r.Violate("R-C14-4", key, w.pos(sf.Pos()), "no strings.ReplaceAll(name, `\"`, `\"\"`) in the result")
+		default:
+			r.Discharge("R-C14-4", key, w.pos(sf.Pos()), "")
 		}
 	}
 
